@@ -200,32 +200,37 @@ RUNNERS = {'py': run_py, 'js': run_js}
 # ----------------------------------------------------------------------------- scenario -> query text
 
 def build_query(sc, order=True, distinct=True, bound=True):
+    """Clause tokens joined by the scenario's separators (one or more blanks / tabs: spelling that must not matter)."""
     items = list(sc['items'])
     if sc.get('unnest_at') is not None:
         items[sc['unnest_at']] = UNNEST_ITEM
-    head = 'select '
+    toks = ['select']
     b = sc.get('bound') if bound else None
     if b and b['form'] == 'top':
-        head += 'top %d ' % b['n']
+        toks += ['top', str(b['n'])]
     if distinct and sc.get('distinct') == 'd':
-        head += 'distinct '
+        toks.append('distinct')
     elif distinct and sc.get('distinct') == 'dc':
-        head += 'distinct count '
-    q = head + ', '.join(items)
+        toks += ['distinct', 'count']
+    toks.append(', '.join(items))
     if sc.get('join'):
-        q += ' %s B on a2 == b1' % sc['join']
+        toks += sc['join'].split(' ') + ['B', 'on', 'a2 == b1']
     if sc.get('where'):
-        q += ' where ' + sc['where']
+        toks += ['where', sc['where']]
     if sc.get('group_by'):
-        q += ' group by ' + sc['group_by']
+        toks += ['group', 'by', sc['group_by']]
     o = sc.get('order') if order else None
     if o:
-        q += ' order by ' + ', '.join(order_key_texts(sc))
+        toks += ['order', 'by', ', '.join(order_key_texts(sc))]
         if o['dir']:
-            q += ' ' + o['dir']
+            toks.append(o['dir'])
     if b and b['form'] == 'limit':
-        q += ' limit %d' % b['n']
-    return q
+        toks += ['limit', str(b['n'])]
+    seps = sc.get('spacing') or [' ']
+    out = toks[0]
+    for i, tok in enumerate(toks[1:]):
+        out += seps[i % len(seps)] + tok
+    return out
 
 
 def order_key_texts(sc):
@@ -351,6 +356,8 @@ def generate(rng, tier, idx):
     if sc['join']:
         keys = ['v1', 'v2', 'x', 'nokey', 'v1']
         sc['join_rows'] = [[rng.choice(keys), rng.choice(['J1', 'J2', 'J3']), rng.choice(['m', 'n'])] for _ in range(rng.choice([0, 1, 2, 3, 4, 5]))]
+    if rng.random() < 0.3:
+        sc['spacing'] = [rng.choice([' ', ' ', '  ', '   ', ' \t', '\t ']) for _ in range(rng.choice([2, 3, 5]))]
     sc['engines'] = ['py', 'js']
     # a quarter of the runs print through the real CSV writer (Python engine), which rewrites the records it receives in place
     sc['writer'] = 'csv' if rng.random() < 0.25 else 'list'
@@ -615,6 +622,10 @@ def shrinks(sc):
             c['order'] = dict(sc['order'])
             c['order']['dir'] = None
             yield c
+    if sc.get('spacing'):
+        c = dict(sc)
+        c.pop('spacing')
+        yield c
     if sc.get('bound'):
         b = sc['bound']
         for nn in (1, b['n'] - 1):
